@@ -18,6 +18,6 @@ META["not_decided"] = ["the built-in physicality check fails exactly when a stor
                        "loss-minimisation estimator cases inside a simulation run (estimators are deterministic functions of the stored data: C13)"]
 
 CLAIM = {'engine': 'E2-symtwin', 'level': 'other',
- 'text': 'PARTIAL. With numpy.random replaced by ghost streams (stream id, position) and joblib by an in-process model that runs tasks in forward, reversed and rotated order, the unmodified simulation entry points are executed and proved to be functions of settings and seeds: execute_simulation draws only from the stream its seed / generator identifies (the global state only without a seed), no two repetitions depend on a common draw, re-estimating from the stored empirical distributions reproduces the stored estimates; execute_simulation_test_setting_unit gives repetition i exactly the draws of the i-th child of SeedSequence(seed_data), never touches the global state, and its generated objects, data and estimates do not change with task order or the four n_jobs settings; the random parts of the effective-Lindbladian noise model draw only from the stream they are given, and the flow hands sample i's generator (i-th child of SeedSequence(seed_qoperation)) to the noise of the true object and of every tester. DepolarizedQOperationGenerationSetting.generate is proved, for every rate p in [0,1] and every symbolic state / POVM / gate / measurement process on 1 qubit and 1 qutrit, to return (1-p) ideal + p (maximally mixed of the same trace).',
+ 'text': 'PARTIAL. With numpy.random replaced by ghost streams (stream id, position) and joblib by an in-process model that runs tasks in forward, reversed and rotated order, the unmodified simulation entry points are executed and proved to be functions of settings and seeds: execute_simulation draws only from the stream its seed / generator identifies (the global state only without a seed), no two repetitions depend on a common draw, re-estimating from the stored empirical distributions reproduces the stored estimates; execute_simulation_test_setting_unit gives repetition i exactly the draws of the i-th child of SeedSequence(seed_data), never touches the global state, and its generated objects, data and estimates do not change with task order or the four n_jobs settings; the random parts of the effective-Lindbladian noise model draw only from the stream they are given, and the flow hands the generator of sample i (i-th child of SeedSequence(seed_qoperation)) to the noise of the true object and of every tester. DepolarizedQOperationGenerationSetting.generate is proved, for every rate p in [0,1] and every symbolic state / POVM / gate / measurement process on 1 qubit and 1 qutrit, to return (1-p) ideal + p (maximally mixed of the same trace).',
  'note': 'Two genuine defects found and fixed (single-setting run with an integer seed made all repetitions identical; POVM tomography could not be simulated at all: misspelled keyword). NOT decided: the built-in physicality check, physicality of the random effective-Lindbladian objects (only the routing of their random streams is proved), real worker processes, loss-minimisation cases. Gate.is_cp of the depolarising channel is used through its closed-form spectrum (assumed lemma, cross-checked natively). Generators trusted.',
  'technique': 'contract-based deductive verification with ghost state (random streams), symbolic execution of the real code'}
